@@ -57,6 +57,10 @@ func c11jsonVisible(p *core.Prog, res *core.Result, roots []*types.Named) {
 			key := tkey + "." + f.Name()
 			tag := reflect.StructTag(st.Tag(i)).Get("json")
 			pos := p.Pos(f.Pos())
+			if tn, ok := types.Unalias(f.Type()).(*types.Named); ok && tn.Obj().Pkg() != nil && (tn.Obj().Pkg().Path() == "sync" || tn.Obj().Pkg().Path() == "sync/atomic") {
+				res.OKTrivial("J1", key, pos, "synchronisation field: carries no data to store")
+				continue
+			}
 			switch ft := f.Type().Underlying().(type) {
 			case *types.Signature, *types.Chan:
 				res.Bad("J1", key, pos, fmt.Sprintf("field %s of %s has type %s, which encoding/json cannot store: a row or job record containing it fails to serialise", f.Name(), tkey, f.Type()))
@@ -217,6 +221,24 @@ func c11countPairing(p *core.Prog, res *core.Result, fi *core.FuncInfo, rule str
 					if sel, ok := c.Fun.(*ast.SelectorExpr); ok && sel.Sel.Name == "Write" && len(c.Args) == 1 {
 						if o := defOrUse(info, c.Args[0]); o != nil && o == item {
 							writes++
+						}
+					}
+					// job.update(func(s *Status) { s.Count += 1 }): an unconditional call whose
+					// function literal does nothing but advance the count by one
+					for _, a := range c.Args {
+						if lit, ok := a.(*ast.FuncLit); ok && len(lit.Body.List) == 1 {
+							switch y := lit.Body.List[0].(type) {
+							case *ast.AssignStmt:
+								if y.Tok == token.ADD_ASSIGN && len(y.Lhs) == 1 && strings.HasSuffix(types.ExprString(y.Lhs[0]), ".Count") {
+									if tv, ok := info.Types[y.Rhs[0]]; ok && tv.Value != nil && constant.Compare(tv.Value, token.EQL, constant.MakeInt64(1)) {
+										counts++
+									}
+								}
+							case *ast.IncDecStmt:
+								if y.Tok == token.INC && strings.HasSuffix(types.ExprString(y.X), ".Count") {
+									counts++
+								}
+							}
 						}
 					}
 				}
